@@ -27,9 +27,11 @@ BASES = "ACGT"
 
 # finding classes (entries of known_findings.json with status "known" suppress them)
 CLASS_SPANNING = "origin_spanning_gene_sublocation"
+CLASS_OVERLAP = "overlapping_exons_sublocation"
+CLASS_TTA_SPLIT = "tta_codon_split_by_intron"
+# repaired classes (status "fixed": nothing is suppressed; a failing case of the class is a VIOLATION that names it)
 CLASS_TTA = "tta_multi_exon"
 CLASS_CODON = "origin_spanning_codon_start"
-CLASS_OVERLAP = "overlapping_exons_sublocation"
 WHAT = {
     CLASS_SPANNING: ("sub-location of an origin-spanning gene is built by walking the exons in coordinate order instead "
                      "of transcription order: wrong nucleotides (or ValueError) for protein ranges of a gene that spans "
@@ -44,6 +46,10 @@ WHAT = {
                     "Feature.get_sub_location_from_protein_coordinates)"),
     CLASS_TTA: ("TTA codon marker placed at start+offset / end-offset-3 ignores introns: for a multi-exon gene the marker "
                 "does not cover the codon found in the spliced sequence (TTAResults.new_feature_from_other)"),
+    CLASS_TTA_SPLIT: ("TTA codon that an intron splits (its three bases are not adjacent in the record): the marker is one "
+                      "feature of three bases from the codon's first base on, so it runs into the intron and does not cover "
+                      "the codon's other bases (TTAResults.new_feature_from_other / new_feature_from_basics: a marker is "
+                      "(start, strand))"),
 }
 
 
@@ -458,7 +464,7 @@ def gen_record(rng, table):
         if strand == -1:
             parts.reverse()
         first_len = parts[0][1] - parts[0][0]
-        cs = rng.choice([-1, -1, 1, 2, 3]) if (not spanning or len(parts) == 1) else rng.choice([-1, 1])
+        cs = rng.choice([-1, -1, 1, 2, 3])
         if 2 <= cs and (first_len <= cs - 1 or sum(e - s for s, e, _ in parts) - (cs - 1) < 9):
             cs = 1
         genes.append({"name": f"gene{k + 1}", "parts": parts, "cs": cs, "spanning": spanning})
@@ -738,9 +744,14 @@ def caller_cases(rng, table, count):
         if with_tta:
             plant_tta(rng, spec, table)
         doc = record_doc(spec)
-        record = build_record(spec)
         annotations = []
         try:
+            try:
+                record = build_record(spec)
+            except Exception as fault:  # pylint: disable=broad-except
+                # every generated gene is well formed: a CDS that cannot be loaded is a failure of the property
+                raise CallerFault(f"CDSFeature.from_biopython: a gene of the record cannot be loaded "
+                                  f"({type(fault).__name__}: {fault})") from fault
             annotations += drive_hmmer(rng, record)
             annotations += drive_nrps(rng, record)
             ripps = drive_ripps(rng, record)
@@ -983,17 +994,26 @@ def fmt_parts(parts):
 
 
 def corpus():
-    """ witnesses of the recorded findings and of the boundary the property text names """
+    """ witnesses of the recorded findings (known ones, and as regression cases the repaired ones) and of the
+        boundary the property text names """
     span_fwd = [(90, 102, 1), (0, 21, 1)]
     span_rev = [(0, 21, -1), (90, 102, -1)]
     multi = [(0, 4, 1), (10, 15, 1)]
+    multi_rev = [(10, 15, -1), (0, 4, -1)]
     slip = [(32, 43, 1), (42, 45, 1)]
     return [
         (2, (span_fwd, False, False, 0, 2), Gene(span_fwd, 102, "spanning", 33)),
         (2, (span_rev, False, False, 0, 2), Gene(span_rev, 102, "spanning", 33)),
         (2, (span_fwd, False, False, 3, 8), Gene(span_fwd, 102, "spanning", 33)),
+        # regression, finding tta_multi_exon (fixed): offset 6 was marked at [6:9], in the intron
         (5, (multi, 6), Gene(multi, 30, "plain", 9)),
+        (5, (multi_rev, 0), Gene(multi_rev, 30, "plain", 9)),
+        (5, (multi_rev, 6), Gene(multi_rev, 30, "plain", 9)),
+        # finding tta_codon_split_by_intron (known): offset 3 = coordinates 3, 10, 11
+        (5, (multi, 3), Gene(multi, 30, "plain", 9)),
+        # regression, finding origin_spanning_codon_start (fixed): AssertionError before the repair
         (3, (span_fwd, 2, 0, 2), Gene(span_fwd, 102, "spanning", 33)),
+        (3, (span_rev, 3, 0, 2), Gene(span_rev, 102, "spanning", 33)),
         (4, (span_fwd, 2, 2), Gene(span_fwd, 102, "spanning", 33)),
         (2, (slip, False, False, 3, 4), Gene(slip, 60, "malformed", 14)),
     ] + load_corpus()
@@ -1001,17 +1021,19 @@ def corpus():
 
 def load_corpus():
     """ 5'-partial genes (codon_start 2 / 3): forward single exon, forward two exons split inside a codon, reverse
-        single exon, reverse two exons; and an origin-spanning gene with codon_start 1 and 2 """
+        single exon, reverse two exons; and an origin-spanning gene with codon_start 1 and 2 (the latter: regression
+        case of the repaired finding origin_spanning_codon_start), also on the reverse strand with codon_start 3 """
     import random
     rng = random.Random(99)
     table = codon_table()
     genes = [([(0, 35, 1)], 3), ([(45, 59, 1), (71, 91, 1)], 2), ([(101, 135, -1)], 2),
-             ([(30, 50, -1), (4, 20, -1)], 3), ([(130, 140, 1), (0, 21, 1)], 1), ([(130, 140, 1), (0, 21, 1)], 2)]
+             ([(30, 50, -1), (4, 20, -1)], 3), ([(130, 140, 1), (0, 21, 1)], 1), ([(130, 140, 1), (0, 21, 1)], 2),
+             ([(0, 21, -1), (130, 140, -1)], 3)]
     out = []
     for fn in (7, 8):
         for parts, cs in genes:
             length = sum(e - s for s, e, _ in parts)
-            spanning = parts[0][0] == 130
+            spanning = 130 in (parts[0][0], parts[-1][0])
             gene = Gene(parts, 140, "spanning" if spanning else "plain", length)
             bases = [rng.randrange(4) for _ in range(140)]
             remove_stops(gene, cs - 1, bases, table)
@@ -1038,7 +1060,8 @@ def judge_load(chk, i, fn, args, gene, verdict, out, report):
     if verdict[0] == 1:
         if cls == 1 and off and len(parts) > 1 and verdict[1] == common.ERR["AssertionError"]:
             chk.count(f"spec_fn{fn}_outside_guard_adjustment_FAILS")
-            report(i, fn, parts, shown, False, CLASS_CODON, "C09_cds_load")
+            report(i, fn, parts, shown, False, CLASS_CODON, "C09_codon_start_origin",
+                   ": the CDS cannot be loaded (AssertionError in the codon_start adjustment)")
         elif first_len > off and gene.length - off >= 3 and gene.strand in (1, -1):
             chk.count(f"spec_fn{fn}_{'guard' if guard else 'outside_guard'}_load_FAILS")
             report(i, fn, parts, shown, guard, None, "C09_cds_load",
@@ -1214,11 +1237,11 @@ def run(chk):
         if fn == 9:
             judge_reread(chk, i, args, gene, verdict, report)
             continue
-        if len(verdict) != 2:
+        if len(verdict) != (3 if fn == 5 else 2):
             chk.violation("broken-correspondence", "specification function did not decode its input",
                           {"theorem_or_correspondence": "spec encoding", "flat": cases[i]})
             break
-        ok, cls = verdict
+        ok, cls = verdict[:2]
         if cls == 3 and fn not in (2, 4):
             cls = 2     # overlapping exons: verdicts only for the sub-location functions
         total_res = gene.codons
@@ -1231,18 +1254,26 @@ def run(chk):
                 continue
             if out[0] == 1:
                 if cls == 1 and out[1] == common.ERR["AssertionError"]:
+                    # the repaired finding origin_spanning_codon_start: no longer suppressed
                     chk.count("spec_fn3_outside_guard_adjustment_FAILS")
-                    report(i, fn, parts, shown_args, False, CLASS_CODON, "C09_codon_start_restored")
+                    report(i, fn, parts, shown_args, False, CLASS_CODON, "C09_codon_start_origin",
+                           ": the codon_start adjustment raises AssertionError")
                 else:
                     chk.count("spec_no_verdict(first exon shorter than the codon_start offset)")
                 continue
             (sub_verdict, (_i, adjusted, sub_res, restored)) = cs_verdicts[i]
-            if cls == 0:
-                good = restored == [0] + enc_parts(parts)
-                chk.count(f"spec_fn3_guard_restore_{'ok' if good else 'FAILS'}")
-                if not good:
-                    report(i, fn, parts, shown_args, True, None, "C09_codon_start_restored")
-                    continue
+            # either class: to_biopython restores the annotated location, and (first exon longer than the offset) the
+            # adjusted location is the annotated one with its first listed exon shortened at the 5' end
+            good = restored == [0] + enc_parts(parts)
+            if parts[0][1] - parts[0][0] > cs - 1 and gene.strand in (1, -1):
+                good = good and adjusted == enc_parts(shifted_gene(gene, cs - 1).parts)
+            chk.count(f"spec_fn3_{'guard' if cls == 0 else 'outside_guard'}_restore_{'ok' if good else 'FAILS'}")
+            if not good:
+                report(i, fn, parts, shown_args, cls == 0, None if cls == 0 else CLASS_CODON,
+                       "C09_codon_start_restored" if cls == 0 else "C09_codon_start_origin",
+                       ": the adjusted location is not the annotated one read from base codon_start-1 on, or "
+                       "to_biopython does not restore the annotated location")
+                continue
             adj_len = sum(adjusted[2 + 3 * j] - adjusted[1 + 3 * j] for j in range(adjusted[0]))
             if len(sub_verdict) == 2 and sub_verdict[1] in (0, 1) and 0 <= s < e <= adj_len // 3:
                 sub_ok, sub_cls = sub_verdict
@@ -1262,14 +1293,21 @@ def run(chk):
             theorem = "C09_prepeptide_partition"
         else:
             parts, off = args
-            # TTA markers are only made for CDS features, whose strand is 1 or -1 (CDSFeature refuses others)
-            in_range = 0 <= off and off + 3 <= gene.length and gene.strand in (1, -1)
-            finding = CLASS_TTA if (len(parts) > 1 and cls in (0, 1)) else None
-            theorem = "C09_tta"
+            split = bool(verdict[2])
+            # TTA markers are only made for CDS features, whose strand is 1 or -1 (CDSFeature refuses others); on a gene
+            # of several exons the offset is a codon's (tta.detect passes multiples of 3; others are floored to one)
+            in_range = (0 <= off and off + 3 <= gene.length and gene.strand in (1, -1)
+                        and (len(parts) == 1 or off % 3 == 0))
+            # an origin-spanning gene: the offset goes through convert_protein_position_to_dna (finding of that class);
+            # a codon that an intron splits: no marker of one part covers it
+            finding = CLASS_SPANNING if cls == 1 else (CLASS_TTA_SPLIT if split else None)
+            theorem = "C09_tta" if len(parts) == 1 else "C09_tta_multi_exon"
         if cls == 2 or not in_range:
             chk.count("spec_no_verdict(out of range or malformed gene)")
             continue
-        guard = (cls == 0) if fn != 5 else (cls == 0 and len(parts) == 1)
+        guard = (cls == 0) if fn != 5 else (cls == 0 and not split)
+        if fn == 5 and not guard:
+            chk.count(f"spec_fn5_class_{finding}")
         chk.count(f"spec_fn{fn}_{'guard' if guard else 'outside_guard'}_{'ok' if ok else 'FAILS'}")
         if fn == 2:
             py_ok = python_property(parts, s, e, impl_outs[i], gene.n, seq_rng)
